@@ -66,7 +66,7 @@ T = {
          "D12 (seeded string initialisers depend on row order, inside dask_ml) is a known finding.", "DESIGN.md 4/C16"),
  "C15": ("Coq proof (under x -> a*x+b per feature: per-component and total log-likelihood shift by -sum ln|a|, responsibilities invariant, statistics equivariant, one ML EM step equivariant, linear scores invariant with offsets scaled; i-vector precision / linear term / projection invariant and one i-vector training iteration equivariant; k-means distances scale by s^2 and assignments are invariant under translation + uniform scaling; the k-means stopping rule is scale-invariant, the GMM one is not: refuted with a witness) + metamorphic oracle on the implementation",
          "Theorems over R for any sizes; the oracle trains/scores on transformed inputs (scales of random sign, 1e-3..1e3, shifts up to 1e2; rotations for k-means) for GMM ML/MAP with all switch settings, linear scoring, ISV/JFA factors/scores/client mean, i-vectors.",
-         "MAP with variance adaptation is not equivariant today: known finding D2 (shared with C05); threshold-stopped GMM training depends on the units through the relative-change rule: known finding D14; the ISV/JFA factor invariances are theorems where Proofs/FAAffine.v is present, otherwise covered by the oracle.", "DESIGN.md 4/C15"),
+         "MAP with variance adaptation is not equivariant today: known finding D2 (shared with C05); threshold-stopped GMM training depends on the units through the relative-change rule: known finding D14; a numerically starved component's mean is origin-dependent through the count floor: known finding D15 (both with Coq refutation witnesses); the ISV/JFA factor invariances are theorems where Proofs/FAAffine.v is present, otherwise covered by the oracle.", "DESIGN.md 4/C15"),
 }
 
 NOT_YET = "check not built yet in this round (the proof technique applies; see DESIGN.md section 4)"
